@@ -1,65 +1,65 @@
 // REPLAY for property C12, harness k_dispatch (unit K-dispatch, engine kani)
 // Failed obligations:
-//   OBL:dispatch.full_flush_dict_size_zero [C12]  at miniz_oxide/src/deflate/core.rs:3209:13 in function deflate::core::verif_deflate_core::k_dispatch
-//   OBL:dispatch.full_flush_clears_hash_chains [C12]  at miniz_oxide/src/deflate/core.rs:3210:13 in function deflate::core::verif_deflate_core::k_dispatch
+//   OBL:dispatch.full_flush_dict_size_zero [C12]  at miniz_oxide/src/deflate/core.rs:3207:13 in function deflate::core::verif_deflate_core::k_dispatch
+//   OBL:dispatch.full_flush_clears_hash_chains [C12]  at miniz_oxide/src/deflate/core.rs:3208:13 in function deflate::core::verif_deflate_core::k_dispatch
 // no-failing-input-found: the verifier reported the failed obligation without a concrete model.
 // Verifier output (tail):
 //   	 - Description: "dereference failure: dead object"
 //   	 - Location: <builtin-library-memcmp>:27 in function memcmp
 //   
-//   Check 1360: memcmp.pointer_dereference.5
+//   Check 1354: memcmp.pointer_dereference.5
 //   	 - Status: SUCCESS
 //   	 - Description: "dereference failure: pointer outside object bounds"
 //   	 - Location: <builtin-library-memcmp>:27 in function memcmp
 //   
-//   Check 1361: memcmp.pointer_dereference.6
+//   Check 1355: memcmp.pointer_dereference.6
 //   	 - Status: SUCCESS
 //   	 - Description: "dereference failure: invalid integer address"
 //   	 - Location: <builtin-library-memcmp>:27 in function memcmp
 //   
-//   Check 1362: memcmp.pointer_dereference.7
+//   Check 1356: memcmp.pointer_dereference.7
 //   	 - Status: SUCCESS
 //   	 - Description: "dereference failure: pointer NULL"
 //   	 - Location: <builtin-library-memcmp>:27 in function memcmp
 //   
-//   Check 1363: memcmp.pointer_dereference.8
+//   Check 1357: memcmp.pointer_dereference.8
 //   	 - Status: SUCCESS
 //   	 - Description: "dereference failure: pointer invalid"
 //   	 - Location: <builtin-library-memcmp>:27 in function memcmp
 //   
-//   Check 1364: memcmp.pointer_dereference.9
+//   Check 1358: memcmp.pointer_dereference.9
 //   	 - Status: SUCCESS
 //   	 - Description: "dereference failure: deallocated dynamic object"
 //   	 - Location: <builtin-library-memcmp>:27 in function memcmp
 //   
-//   Check 1365: memcmp.pointer_dereference.10
+//   Check 1359: memcmp.pointer_dereference.10
 //   	 - Status: SUCCESS
 //   	 - Description: "dereference failure: dead object"
 //   	 - Location: <builtin-library-memcmp>:27 in function memcmp
 //   
-//   Check 1366: memcmp.pointer_dereference.11
+//   Check 1360: memcmp.pointer_dereference.11
 //   	 - Status: SUCCESS
 //   	 - Description: "dereference failure: pointer outside object bounds"
 //   	 - Location: <builtin-library-memcmp>:27 in function memcmp
 //   
-//   Check 1367: memcmp.pointer_dereference.12
+//   Check 1361: memcmp.pointer_dereference.12
 //   	 - Status: SUCCESS
 //   	 - Description: "dereference failure: invalid integer address"
 //   	 - Location: <builtin-library-memcmp>:27 in function memcmp
 //   
 //   
 //   SUMMARY:
-//    ** 2 of 1360 failed (20 unreachable)
+//    ** 2 of 1354 failed (8 unreachable)
 //   
-//    ** 6 of 7 cover properties satisfied
+//    ** 7 of 7 cover properties satisfied
 //   
 //   Failed Checks: "OBL:dispatch.full_flush_dict_size_zero [C12]"
-//    File: "miniz_oxide/src/deflate/core.rs", line 3209, in deflate::core::verif_deflate_core::k_dispatch
+//    File: "miniz_oxide/src/deflate/core.rs", line 3207, in deflate::core::verif_deflate_core::k_dispatch
 //   Failed Checks: "OBL:dispatch.full_flush_clears_hash_chains [C12]"
-//    File: "miniz_oxide/src/deflate/core.rs", line 3210, in deflate::core::verif_deflate_core::k_dispatch
+//    File: "miniz_oxide/src/deflate/core.rs", line 3208, in deflate::core::verif_deflate_core::k_dispatch
 //   
 //   VERIFICATION:- FAILED
-//   Verification Time: 61.775467s
+//   Verification Time: 83.926186s
 //   
 //   Manual Harness Summary:
 //   Verification failed for - deflate::core::verif_deflate_core::k_dispatch
